@@ -14,6 +14,7 @@ class C14(DevProp):
     fail_term = "c14_failures k"
     mis_term = "c14_mismatch k"
     nontrivial_term = "c14_fired k"
+    soak = True
     monitor_name = "C14 monitor (signal iff press completing the sequence; completing press silent and state-neutral)"
     correspondence_name = "C14 view (per-event termination-signal count of model vs implementation)"
     rule = ("exit sequences of length 0-3 drawn from note keys, action keys and unmapped keys; every press order of the sequence keys "
@@ -32,18 +33,8 @@ class C14(DevProp):
         cases = []
         n_cfg = 30 if tier == "quick" else 400
         for ci in range(n_cfg):
-            cfg = devgen.gen_config(rng, with_exit=False)
-            note_codes = sorted({kk["code"] for m in cfg["mappings"] for kk in m["midi"]})
-            act_codes = [a["code"] for a in cfg["actions"]]
-            pool = {"note": note_codes, "action": act_codes, "other": devgen.OTHER_CODES}
-            L = ci % 4
-            kinds = [rng.choice(["note", "action", "other"]) for _ in range(L)]
-            seq = []
-            for kd in kinds:
-                cand = [x for x in pool[kd] if x not in seq]
-                if cand:
-                    seq.append(rng.choice(cand))
-            cfg["exitseq"] = seq
+            cfg, note_codes, act_codes = self.exit_config(rng, ci % 4)
+            seq = cfg["exitseq"]
             others = [x for x in note_codes + act_codes if x not in seq][:4]
             if not seq:
                 cases.append({"cfg": cfg, "abs": [], "events": devgen.gen_history(rng, cfg, 30, avoid_exit=False), "tag": "empty-sequence"})
@@ -73,6 +64,27 @@ class C14(DevProp):
                 cases.append({"cfg": cfg, "abs": [], "events": devgen.gen_history(rng, cfg, rng.randint(20, 70), avoid_exit=False, p_action=0.4),
                               "tag": "random"})
         return cases
+
+    def exit_config(self, rng, L):
+        """random configuration with an exit sequence of (at most) L keys drawn from note keys, action keys and unmapped keys"""
+        cfg = devgen.gen_config(rng, with_exit=False)
+        note_codes = sorted({kk["code"] for m in cfg["mappings"] for kk in m["midi"]})
+        act_codes = [a["code"] for a in cfg["actions"]]
+        pool = {"note": note_codes, "action": act_codes, "other": devgen.OTHER_CODES}
+        kinds = [rng.choice(["note", "action", "other"]) for _ in range(L)]
+        seq = []
+        for kd in kinds:
+            cand = [x for x in pool[kd] if x not in seq]
+            if cand:
+                seq.append(rng.choice(cand))
+        cfg["exitseq"] = seq
+        return cfg, note_codes, act_codes
+
+    def soak_case(self, rng):
+        """stream of the extracted-model soak: the 'random' stream (a fresh configuration per history, sequence length 0-3 uniform)"""
+        cfg, _, _ = self.exit_config(rng, rng.randrange(4))
+        return {"cfg": cfg, "abs": [], "events": devgen.gen_history(rng, cfg, rng.randint(20, 70), avoid_exit=False, p_action=0.4),
+                "tag": "random"}
 
 
 def run(run_):
